@@ -176,8 +176,11 @@ def family(name: str, tier: str = "quick", seed: int = 0) -> List[dict]:
 
     # ---- 4./5. XPath ------------------------------------------------------------------
     heads = [p for p in prof.nts if p != "<start>" and prof.lits[p]]
+    n_children, n_desc = (2, 1) if tier == "quick" else (3, 3)
+    if tier == "quick":
+        heads = heads[:3]
     for p in heads:
-        for c, k in prof.children[p][:3]:
+        for c, k in prof.children[p][:n_children]:
             lc = lit(c)
             add("xpath-child", "free", eq(xp(NT(p), [(c, None)]), lc))
             add("xpath-child", "free-negated", Not(eq(xp(NT(p), [(c, None)]), lc)))
@@ -210,7 +213,7 @@ def family(name: str, tier: str = "quick", seed: int = 0) -> List[dict]:
                 add("xpath-child", "child-child-exists", Q("exists", p, "v", None, eq(xp(V("v"), [(c, None), (d, None)]), ld), None))
                 add("xpath-desc", "child-then-descendant", eq(xp(NT(p), [(c, None)], [(d, None)]), ld))
                 add("xpath-desc", "child-then-descendant-exists", Q("exists", p, "v", None, eq(xp(V("v"), [(c, None)], [(d, None)]), ld), None), cls="xpath-desc:under-existential-quantifier", combo=False)
-        for d in prof.desc[p][-3:]:
+        for d in prof.desc[p][-n_desc:]:
             ld = lit(d)
             add("xpath-desc", "free", eq(xp(NT(p), [], [(d, None)]), ld))
             add("xpath-desc", "free-negated", Not(eq(xp(NT(p), [], [(d, None)]), ld)))
@@ -277,7 +280,10 @@ def family(name: str, tier: str = "quick", seed: int = 0) -> List[dict]:
     x, y = V("x"), V("y")
     qa = Q("exists", T, "x", None, A(x), None)
     qb = Q("forall", T, "y", None, Or(A(y), Bq(y)), None)
-    for cls, node in (("implies", Implies), ("iff", Iff), ("xor", Xor)):
+    connective_nodes = (("implies", Implies), ("iff", Iff), ("xor", Xor))
+    if tier == "quick" and name not in ("assgn", "rightrec", "nullable", "multichar", "csvish"):
+        connective_nodes = ()
+    for cls, node in connective_nodes:
         add("connective", f"{cls}:closed-operands", node(qa, qb))
         add("connective", f"{cls}:closed-operands-swapped", node(qb, qa))
         add("connective", f"{cls}:under-quantifier", Q("forall", T, "x", None, node(A(x), len_cmp(x, "<", 2)), None))
@@ -287,13 +293,14 @@ def family(name: str, tier: str = "quick", seed: int = 0) -> List[dict]:
         add("connective", f"{cls}:negated", Not(node(qa, qb)))
         add("connective", f"{cls}:nested-left", node(node(qa, qb), Q("exists", U, "u", None, L(V("u")), None)))
     qc = Q("exists", U, "u", None, L(V("u")), None)
-    add("connective", "precedence:and-not-or", Or(And(qa, Not(qb)), And(qb, Not(qa))), True)
-    add("connective", "precedence:and-or-xor", Xor(Or(And(qa, qb), qc), qa), True)
-    add("connective", "precedence:xor-implies", Implies(Xor(qa, qb), qc), True)
-    add("connective", "precedence:implies-iff", Iff(Implies(qa, qb), qc), True)
-    add("connective", "precedence:iff-right", Iff(qc, Implies(qa, Xor(qb, Or(qc, And(qa, qb))))), True)
-    add("connective", "precedence:or-and", Or(qa, And(qb, qc)), True)
-    add("connective", "precedence:not-and", And(Not(qa), qb), True)
+    if connective_nodes:
+        add("connective", "precedence:and-not-or", Or(And(qa, Not(qb)), And(qb, Not(qa))), True)
+        add("connective", "precedence:and-or-xor", Xor(Or(And(qa, qb), qc), qa), True)
+        add("connective", "precedence:xor-implies", Implies(Xor(qa, qb), qc), True)
+        add("connective", "precedence:implies-iff", Iff(Implies(qa, qb), qc), True)
+        add("connective", "precedence:iff-right", Iff(qc, Implies(qa, Xor(qb, Or(qc, And(qa, qb))))), True)
+        add("connective", "precedence:or-and", Or(qa, And(qb, qc)), True)
+        add("connective", "precedence:not-and", And(Not(qa), qb), True)
 
     # ---- 8b. XPath expressions below connectives ------------------------------------------
     pc = [(p, c) for p in heads for c, _ in prof.children[p][:1]]
